@@ -54,9 +54,15 @@ var _ grpc.ServerStream = (*fake)(nil)
 type readStream struct {
 	fake
 	chunks []*btpb.ReadRowsResponse_CellChunk
+	failAt int // the failAt-th Send fails (0 = never)
+	sends  int
 }
 
 func (s *readStream) Send(r *btpb.ReadRowsResponse) error {
+	s.sends++
+	if s.failAt > 0 && s.sends >= s.failAt {
+		return fmt.Errorf("the client went away")
+	}
 	s.chunks = append(s.chunks, r.Chunks...)
 	return nil
 }
@@ -68,6 +74,19 @@ func (s *mrStream) Send(r *btpb.MutateRowsResponse) error { return nil }
 type skStream struct{ fake }
 
 func (s *skStream) Send(r *btpb.SampleRowKeysResponse) error { return nil }
+
+// btBig is a table whose full scan needs more than one response message (> 1024 chunks).
+const btBig = "p/tables/big"
+
+// SeedBig creates btBig.
+func (e *BtEnv) SeedBig() {
+	ctx := context.Background()
+	e.Svc.Admin().CreateTable(ctx, &btapb.CreateTableRequest{Parent: "p", TableId: "big", Table: &btapb.Table{ColumnFamilies: map[string]*btapb.ColumnFamily{"f": {}}}})
+	for i := 0; i < 1300; i++ {
+		e.Svc.Data().MutateRow(ctx, &btpb.MutateRowRequest{TableName: btBig, RowKey: []byte(fmt.Sprintf("b%05d", i)), Mutations: []*btpb.Mutation{
+			{Mutation: &btpb.Mutation_SetCell_{SetCell: &btpb.Mutation_SetCell{FamilyName: "f", ColumnQualifier: []byte("q"), TimestampMicros: 1000, Value: []byte("v")}}}}})
+	}
+}
 
 // Seed creates the table and a few rows.
 func (e *BtEnv) Seed() {
@@ -262,6 +281,13 @@ func GenBt(r *core.Rng) BtCall {
 			req.Rows = &btpb.RowSet{RowRanges: []*btpb.RowRange{{StartKey: &btpb.RowRange_StartKeyClosed{StartKeyClosed: []byte("z")}, EndKey: &btpb.RowRange_EndKeyOpen{EndKeyOpen: []byte("a")}}}}
 		case 3:
 			req.Rows = &btpb.RowSet{RowRanges: []*btpb.RowRange{{StartKey: &btpb.RowRange_StartKeyOpen{StartKeyOpen: nil}, EndKey: &btpb.RowRange_EndKeyClosed{EndKeyClosed: nil}}}}
+		}
+		if r.Chance(1, 4) {
+			// a valid full scan whose client goes away at the first message
+			req = &btpb.ReadRowsRequest{TableName: btTable}
+			return mk("ReadRows(abandoned)", req, func(e *BtEnv, m proto.Message) error {
+				return e.Svc.Data().ReadRows(m.(*btpb.ReadRowsRequest), &readStream{fake: fake{ctx}, failAt: 1})
+			})
 		}
 		return mk("ReadRows", req, func(e *BtEnv, m proto.Message) error {
 			return e.Svc.Data().ReadRows(m.(*btpb.ReadRowsRequest), &readStream{fake: fake{ctx}})
